@@ -65,6 +65,90 @@ RUNTIME_HEADS = ["let s = \"é\n€\"\n", "// é €\nlet s = \"a\nb\nc\" ", "le
                  "let s = \"a\\\\\"\n\n", "\tlet s = \"é\"\n  "]
 
 
+def lsp_definition_stage(ctx, exe, rng, n_projects):
+    """Positions that cross files: go-to-definition over LSP on symbols defined in an IMPORTED file (and in the file itself).
+    The returned location must name the defining file and its range must cover exactly the definition's name there, in
+    UTF-16 columns of THAT file's text (both files contain non-ASCII text of different lengths)."""
+    import json as _json
+    import os
+    import shutil
+    import tempfile
+    from vplib import oracle
+    wide = ["é", "я", "€", "語", "\U0001F600"]
+
+    def u16(s):
+        return sum(2 if ord(c) > 0xFFFF else 1 for c in s)
+    for pi in range(n_projects):
+        d = tempfile.mkdtemp(dir=oracle.scratch_dir())
+        try:
+            pad = lambda k: "".join(rng.choice(wide) for _ in range(k))
+            names = ["libfun%d_%d" % (pi, i) for i in range(rng.randrange(2, 5))]
+            lib_lines, where = [], {}
+            for nm in names:
+                lib_lines.append("// " + pad(rng.randrange(0, 30)))
+                pre = rng.choice(["public fun ", "public fun ", "/* x */ public fun ".replace("/* x */ ", "")])
+                where[nm] = (len(lib_lines), pre)
+                lib_lines.append("%s%s(x: Int): Int { x + %d } // %s" % (pre, nm, rng.randrange(9), pad(rng.randrange(0, 8))))
+            lib = "\n".join(lib_lines) + "\n"
+            main_lines = ['import "./lib.gdn"', "// " + pad(rng.randrange(0, 60))]
+            calls = []
+            for nm in names:
+                lead = 'let s%d = "%s" ' % (len(main_lines), pad(rng.randrange(0, 10)))
+                calls.append((len(main_lines), u16(lead), nm))
+                main_lines.append(lead + "%s(1)" % nm)
+            main_lines += ["fun local_fn%d(): Int { 1 }" % pi]
+            calls.append((len(main_lines), 0, "local_fn%d" % pi))
+            main_lines.append("local_fn%d()" % pi)
+            main = "\n".join(main_lines) + "\n"
+            open(os.path.join(d, "lib.gdn"), "w").write(lib)
+            open(os.path.join(d, "main.gdn"), "w").write(main)
+            uri = "file://" + os.path.join(d, "main.gdn")
+            msgs = [{"jsonrpc": "2.0", "method": "textDocument/didOpen",
+                     "params": {"textDocument": {"uri": uri, "languageId": "garden", "version": 1, "text": main}}}]
+            for i, (ln, col, nm) in enumerate(calls):
+                msgs.append({"jsonrpc": "2.0", "id": i + 1, "method": "textDocument/definition",
+                             "params": {"textDocument": {"uri": uri}, "position": {"line": ln, "character": col + 1}}})
+            rq = os.path.join(d, "req.jsonl")
+            open(rq, "w").write("".join(_json.dumps(m) + "\n" for m in msgs))
+            rc, out, err = oracle.garden_cli(exe, ["reftest-lsp", rq], timeout=60, cwd=d)
+            dec, idx, resp = _json.JSONDecoder(), 0, {}
+            while idx < len(out):
+                while idx < len(out) and out[idx].isspace():
+                    idx += 1
+                if idx >= len(out):
+                    break
+                try:
+                    obj, idx = dec.raw_decode(out, idx)
+                except ValueError:
+                    break
+                if isinstance(obj, dict) and "id" in obj:
+                    resp[obj["id"]] = obj
+            for i, (ln, col, nm) in enumerate(calls):
+                ctx.case({"lsp_definition": nm}, not nm.startswith("local"))
+                ctx.stat("lsp definition " + ("same file" if nm.startswith("local") else "imported file"))
+                r = (resp.get(i + 1) or {}).get("result")
+                loc = r[0] if isinstance(r, list) and r else r
+                if nm.startswith("local"):
+                    text, fname = main, "main.gdn"
+                    dl = [k for k, l in enumerate(main_lines) if l.startswith("fun " + nm)][0]
+                    dc = u16("fun ")
+                else:
+                    text, fname = lib, "lib.gdn"
+                    dl = where[nm][0]
+                    dc = u16(where[nm][1])
+                want = {"start": {"line": dl, "character": dc}, "end": {"line": dl, "character": dc + u16(nm)}}
+                ok = isinstance(loc, dict) and str(loc.get("uri", "")).endswith("/" + fname) and loc.get("range") == want
+                if not ok:
+                    ctx.violation("C23:lsp-definition-range:" + ("same-file" if nm.startswith("local") else "imported-file"),
+                                  "go-to-definition on `%s` answers %s; the definition's name is at %s of %s (stderr: %s)"
+                                  % (nm, _json.dumps(loc)[:200], _json.dumps(want), fname, err.strip()[-200:]),
+                                  {"files": {"main.gdn": main, "lib.gdn": lib}, "requests": msgs, "observed": loc, "expected": {"file": fname, "range": want},
+                                   "cli_command": "garden reftest-lsp <requests.jsonl> (uris point at the directory holding the two files)"})
+                    return
+        finally:
+            shutil.rmtree(d, ignore_errors=True)
+
+
 def run(ctx):
     ctx.trusted = L.TRUSTED + ["tools/props/C01.py line_col / pos_problem (independent recomputation of positions)"]
     ctx.coq("Properties/C23.v")
@@ -201,6 +285,7 @@ def run(ctx):
     ctx.notes.append("AST / diagnostic / runtime positions: checked by recomputation on generated inputs, not proved "
                      "(parser model is a separate deliverable); lexer positions and Position::merge: proved")
     ctx.notes.append("go-to-definition positions are not exercised by this driver (LSP: see C29)")
+    lsp_definition_stage(ctx, exe, rng, 40 if ctx.thorough else 8)
 
 
 def replay(ctx, rp):
